@@ -241,6 +241,8 @@ class C16(Check):
         # a short write (the kernel takes only part of the buffer) on each kind of metadata-plane file
         for kind in ("metadata", "manifest", "manifest_list", "hint", "marker"):
             yield {"variant": f"shortwrite:{kind}"}
+        # two threads on one Table object, one suspended inside a marker write while the other commits
+        yield {"variant": "threads"}
         # the publishing rename of each kind of file is refused once (EXDEV)
         for kind in ("metadata", "manifest", "manifest_list", "data", "hint"):
             yield {"variant": f"renamefail:{kind}"}
@@ -263,7 +265,7 @@ class C16(Check):
             relevant = [e for e in events if (e.fdpath and e.fdpath.startswith(root)) or any(x.startswith(root) for x in e.paths)
                         or (e.call == "write" and e.data and e.data.startswith(b"MARK "))]
             res.count("trace_events", len(relevant))
-            if case["variant"].startswith(("fault:", "shortwrite:", "renamefail:")):
+            if case["variant"].startswith(("fault:", "shortwrite:", "renamefail:", "threads")):
                 marks = [e.data.decode(errors="replace").strip() for e in relevant
                          if e.call == "write" and e.data and e.data.startswith(b"MARK ")]
                 if "MARK fault_fired" not in marks:
